@@ -28,3 +28,8 @@ def run(F, X, rep):
     # i.e. the cell never moves backwards (C20-W)
     import p_c20
     p_c20.w_single_guarded_writer(F, X, rep, "C04-H")
+    # "configured safety delta", "the policy's CLTV delta": the options are what reaches params.cltv_delta / the policy
+    import p_c19
+    mb = p_c19.main_body(F)
+    if rep.anchor("C04-W", "main coroutine", 1 if mb else 0):
+        p_c19.w_wiring(F, X, rep, mb, F.root_of(mb), rid="C04-W")
